@@ -46,7 +46,7 @@ Class(o) == ":newer-source=" \o Newer(o) \o ":generates=" \o (IF ~cfg.gen THEN "
             \o (IF cfg.collide THEN ":colliding-names" ELSE "")
 
 ReadOnly == {"dry", "status", "list", "listjson", "summary", "drydir"}
-RunModes == {"run", "other", "fail1", "fail2", "failpre", "prompt", "kill1", "kill2"}
+RunModes == {"run", "other", "fail1", "fail2", "failpre", "cancelsib", "prompt", "kill1", "kill2"}
 
 WorldInit ==
   /\ files = [f \in Files |-> [c |-> IF f = "b" THEN 0 ELSE 1, m |-> 1]]
@@ -83,7 +83,8 @@ FileOp(op) ==
 
 \* ---- an invocation of Task and what was observed: ran = sequence of body markers, exit, diff
 \* `mode = "other"` runs task u (same sources and generates, different name).
-Skipped(obs) == obs.ran = <<>> /\ obs.exit = 0
+\* in mode "cancelsib" the invocation always fails (the sibling does); the task itself was skipped when its body did not start
+SkippedIn(mode, obs) == obs.ran = <<>> /\ (obs.exit = 0 \/ mode = "cancelsib")
 Succeeded(obs) == obs.ran = <<1, 2>> /\ obs.exit = 0
 
 InvViol(mode, obs) ==
@@ -92,21 +93,21 @@ InvViol(mode, obs) ==
       clean == o.valid /\ o.fp = FP
   IN
   \* C04: skipped only if the most recent attempt for this fingerprint succeeded and generates exist
-  (IF mode \in RunModes /\ Skipped(obs) /\ ~(clean /\ GenOK)
+  (IF mode \in RunModes /\ SkippedIn(mode, obs) /\ ~(clean /\ GenOK)
    THEN {Viol("C04", (IF ~clean THEN "skipped-unsound" ELSE "skipped-with-missing-generates")
                        \o ":" \o cfg.method \o ":last-attempt=" \o (IF o.valid THEN "ok" ELSE o.how) \o Class(o))} ELSE {})
   \cup
   \* C05: idempotence, and re-execution after any change
-  (IF mode \in RunModes /\ ~Skipped(obs) /\ clean /\ GenOK /\ StatOK
+  (IF mode \in RunModes /\ ~SkippedIn(mode, obs) /\ clean /\ GenOK /\ StatOK
    THEN {Viol("C05", "rerun-without-change:" \o cfg.method \o ":after-" \o o.how)} ELSE {})
   \cup
-  (IF mode \in RunModes /\ Skipped(obs) /\ o.valid /\ o.fp # FP
+  (IF mode \in RunModes /\ SkippedIn(mode, obs) /\ o.valid /\ o.fp # FP
    THEN {Viol("C05", "skipped-after-change:" \o cfg.method \o Class(o))} ELSE {})
   \cup
-  (IF mode \in RunModes /\ Skipped(obs) /\ clean /\ ~GenOK
+  (IF mode \in RunModes /\ SkippedIn(mode, obs) /\ clean /\ ~GenOK
    THEN {Viol("C05", "skipped-with-missing-generates:" \o cfg.method)} ELSE {})
   \cup
-  (IF mode \in RunModes /\ Skipped(obs) /\ clean /\ GenOK /\ ~StatOK
+  (IF mode \in RunModes /\ SkippedIn(mode, obs) /\ clean /\ GenOK /\ ~StatOK
    THEN {Viol("C05", "skipped-with-failing-status")} ELSE {})
   \cup
   (IF mode = "force" /\ obs.ran = <<>> THEN {Viol("C05", "force-did-not-run")} ELSE {})
@@ -119,7 +120,7 @@ InvViol(mode, obs) ==
 Invocation(mode, obs) ==
   LET task == IF mode = "other" THEN "u" ELSE "t" IN
   /\ bad' = bad \cup InvViol(mode, obs)
-  /\ ok' = IF mode \in ReadOnly \/ (Skipped(obs) /\ mode \in RunModes) THEN ok
+  /\ ok' = IF mode \in ReadOnly \/ (SkippedIn(mode, obs) /\ mode \in RunModes) THEN ok
            ELSE [ok EXCEPT ![task] = [valid |-> Succeeded(obs), fp |-> FP, how |-> mode, at |-> clock]]
   \* effect of the body on the world: marker 2 is written after the generated file is touched
   /\ IF cfg.gen /\ Len(obs.ran) = 2
